@@ -178,6 +178,30 @@ def _check_closure(run, f, outer):
     node = r.returns[0][2]
     data_p = ("sym", outer.params()[0])
     if ret[0] != "sub" or ret[2][0] != "tuple" or len(ret[2][1]) != 2:
+        # another lookup form.  One thing is definite whatever the form: a *flattened* position built arithmetically from a row
+        # index and a column index that were not clamped per axis (iy * nx + ix) - clamping the flat position afterwards
+        # (np.take(..., mode="clip")) is not clamping each axis: ix == nx (a point on the seam) lands in column 0 of the next row
+        lon_q, lat_q = ("sym", call_params[0]), ("sym", call_params[1])
+
+        def loose_index(a):
+            inner_, lo_, hi_ = _clamps(a)
+            if lo_ is not None or hi_ is not None:
+                return None
+            core_, rounded_, cast_ = _unround(inner_)
+            if not (rounded_ or cast_):
+                return None
+            at_ = atoms_of(core_)
+            dep_lon = lon_q in at_ or any(x_[0] == "attr" and x_[2] in ("l", "lon") for x_ in _subterms_all(core_))
+            dep_lat = lat_q in at_ or any(x_[0] == "attr" and x_[2] in ("b", "lat") for x_ in _subterms_all(core_))
+            return "x" if dep_lon and not dep_lat else "y" if dep_lat and not dep_lon else None
+        for x_ in _subterms_all(ret):
+            if x_[0] == "poly":
+                axes = {loose_index(a) for m_, _c in x_[1] for a, _p in m_} - {None}
+                if axes == {"x", "y"}:
+                    run.violated("C11.R1", f, node, "%s: the map is read at a flattened position (%s) computed from a row index and a column index that are not clamped "
+                                 "to [0, n-1] per axis: a column index equal to nx (a point on the seam) lands in the first column of the next row, a row index equal "
+                                 "to ny (the pole) in an arbitrary pixel" % (name, show(x_)[:80]), kind="flat-index-unclamped", sampler=name)
+                    return
         run.undecided("C11.R1", f, node, "%s: result %s is not map[iy, ix]" % (name, show(ret)[:100]), kind="result-shape")
         return
     # a project helper / constructor inside the result that the evaluator did not follow: its fields are unknown quantities, and a
